@@ -40,7 +40,7 @@ REAL_VS_STUB = {
     "stub": ["the test-phase faults (vocabulary classes in simlib.py: EvilEq, RaisesEq, BadCopy)", "formatter states", "the user"],
 }
 CATS = ["create", "fix", "trim", "update"]
-TROUBLE = ["evil_dict_retry", "evil_dict_retry", "unorderable", "evil_align", "raiseseq_root", "nested_deleted", "nested_replaced", "nested_kept", "badcopy", "mixed_ops", "nested_dict", "evil_in", "nested_in_dictvalue"]
+TROUBLE = ["in_on_nonlist", "evil_dict_retry", "evil_dict_retry", "unorderable", "evil_align", "raiseseq_root", "nested_deleted", "nested_replaced", "nested_kept", "badcopy", "mixed_ops", "nested_dict", "evil_in", "nested_in_dictvalue"]
 
 
 def add_trouble(rng, f, kind, n):
@@ -57,6 +57,10 @@ def add_trouble(rng, f, kind, n):
     elif kind == "evil_align":
         site.update(arg=rng.choice(["[1, 2, 3]", "[0, 2]", "(4, 5)"]))
         ev["vals"] = [["list" if site["arg"].startswith("[") else "tuple", [["evileq", 1], ["int", 2]]]]
+    elif kind == "in_on_nonlist":
+        # `x in snapshot(<not a list>)`: plain python raises TypeError (int) or answers (tuple); session end must cope with both
+        site.update(op="in", arg=rng.choice(["5", "(1, 2)", '{"a": 1}', "DCN(k=0)"]))
+        ev["vals"] = [["int", rng.choice([1, 7])]]
     elif kind == "evil_in":
         site.update(op="in", arg="[1, 2]")
         ev["vals"] = [["evileq", 1]]
